@@ -452,6 +452,8 @@ M('C14', 'M5.registration_extends', 'registration_extends', 'symbolic execution 
 K('C19', 'K3.responder_index_follows_disconnect', 'teos', 'responder::verif_harness::c04_p2_disconnect_confirmed_elsewhere', 'Responder::block_disconnected removes the disconnected block from the Responder\'s index whether or not a tracker was confirmed in it (no tracker confirmed at that height in this shape): the index stays equal to the last N blocks of the active chain')
 M('C02', 'M2.block_order', 'responder_block_order', 'every completed path of Responder::filtered_block_connected clears the carrier\'s receipts (what was sent is remembered for one block only: a stale receipt would let a later breach be reported as responded without the node being given the penalty) and keeps the order of the steps')
 M('C12', 'M4.monitor_polls_always', 'monitor_polls_always', 'every iteration of ChainMonitor::monitor_chain polls the node (poll_best_tip) before it sleeps again, on every path and whatever the reachable flag says: the only code that raises the flag and wakes the Carrier keeps running during and after an outage')
+K('C02', 'K3.responder_index_follows_disconnect', 'teos', 'responder::verif_harness::c04_p2_disconnect_confirmed_elsewhere', 'Responder::block_disconnected removes the disconnected block from the Responder\'s index whether or not a tracker was confirmed in it: a penalty that was only seen in a block that is gone is not reported as confirmed (tracker without the node having the penalty)')
+M('C13', 'M8.retain_rule', 'retain_rule', 'the retry manager keeps a retrier only on the true edge of should_start(), is_running() or is_idle(), after remove_if_failed(): a failed or finished retrier is dropped, so that the next manual retry or revocation for its tower gets a fresh one')
 M('C08', 'M1.single_height_read', 'single_height_read', 'Watcher::add_appointment reads the tower height once per accepted request: the start block in the receipt and the one stored with the appointment are the same number whatever block events interleave')
 M('C06', 'M2.uuid_derivation', 'uuid_derivation', 'UUID::new hashes locator || full serialised user key (PublicKey::serialize): distinct users never share a uuid for the same locator')
 K('C11', 'K1.handle_reorged_panic_free', 'teos', _r + 'c04_p3_handle_reorged', 'handle_reorged_txs does not panic for any node reply to the dispute / penalty re-submission (incl. already-in-chain)')
